@@ -629,15 +629,35 @@ func TestC01Generator(t *testing.T) {
 			p, _ := netip.AddrFrom16(a).Prefix(bits)
 			return p
 		}
-		for i, n := 0, c.Int("accept.n", 1, 3); i < n; i++ {
+		for i, n := 0, 1+c.Weighted("accept.n", 2, 3, 3); i < n; i++ {
 			accept = append(accept, mk(fmt.Sprintf("accept%d", i), 9, 13))
 		}
 		for i, n := 0, c.Int("ignore.n", 0, 2); i < n; i++ {
 			p := mk(fmt.Sprintf("ignore%d", i), 10, 16)
-			if c.Bool("ignore.inside") {
-				// Overlap an acceptable prefix.
+			switch c.Weighted("ignore.relation", 3, 3, 2, 2, 1) {
+			case 1:
+				// Inside an acceptable prefix, at its base address.
 				base := accept[c.Pick("ignore.of", len(accept))]
 				p, _ = base.Addr().Prefix(min(base.Bits()+c.Int("ignore.deeper", 1, 3), 20))
+			case 2:
+				// Inside an acceptable prefix, somewhere else than at its base address.
+				base := accept[c.Pick("ignore.of", len(accept))]
+				deeper := min(base.Bits()+c.Int("ignore.deeper", 1, 3), 20)
+				a := base.Addr().As16()
+				for bit := base.Bits(); bit < deeper; bit++ {
+					if c.Bool("ignore.subblock.bit") {
+						a[bit/8] |= 0x80 >> (bit % 8)
+					}
+				}
+				p, _ = netip.AddrFrom16(a).Prefix(deeper)
+			case 3:
+				// Broader than an acceptable prefix and covering it completely (the
+				// base address of the broader range mostly lies outside the covered one).
+				base := accept[c.Pick("ignore.of", len(accept))]
+				p, _ = base.Addr().Prefix(max(base.Bits()-c.Int("ignore.broader", 1, 3), 8))
+				c.Class("ignored-range-covers-an-acceptable-prefix")
+			case 4:
+				p = accept[c.Pick("ignore.of", len(accept))] // exactly an acceptable prefix
 			}
 			ignore = append(ignore, p)
 		}
